@@ -12,6 +12,7 @@ import (
 	"fmt"
 	"io"
 	"math/big"
+	"net/http"
 	"strconv"
 	"strings"
 
@@ -19,13 +20,18 @@ import (
 	"github.com/kklash/bitcoinlib/base58check"
 	"github.com/kklash/bitcoinlib/bech32"
 	"github.com/kklash/bitcoinlib/bip32"
+	"github.com/kklash/bitcoinlib/bip38"
+	"github.com/kklash/bitcoinlib/bip39"
 	"github.com/kklash/bitcoinlib/blocks"
 	"github.com/kklash/bitcoinlib/blocks/blockheader"
 	"github.com/kklash/bitcoinlib/ecc"
+	"github.com/kklash/bitcoinlib/rpc"
 	"github.com/kklash/bitcoinlib/script"
+	"github.com/kklash/bitcoinlib/taproot"
 	"github.com/kklash/bitcoinlib/tx"
 	"github.com/kklash/bitcoinlib/varint"
 	"github.com/kklash/ekliptic"
+	"golang.org/x/crypto/scrypt"
 )
 
 var extraGens = map[string][]func(*Runner){}
@@ -817,6 +823,188 @@ func init() {
 				r.Do("tap.tweakpub", []string{hx(k), hx(h)}, "xonly/edge-key", true, "edge x coordinate as x-only key")
 			}
 			r.Do("tap.p2tr", []string{hx(k), "N"}, "p2tr/edge-internal-key", true, "edge x coordinate as internal key")
+		}
+	})
+}
+
+// ---- values with a leading zero byte --------------------------------------------------------------
+//
+// Fixed-width big-endian fields (coordinates, scalars, secrets, derived keys) lose their leading zero
+// bytes when they are produced with big.Int.Bytes() or copied left-aligned; one value in 256 has one.
+// Random sampling meets them too rarely in a quick run, so they are searched for.
+
+// scalarWithLeadingZeroX returns a scalar k >= start whose public key has an x coordinate with a
+// leading zero byte.
+func scalarWithLeadingZeroX(start int64) []byte {
+	for k := start; ; k++ {
+		kb := big.NewInt(k).FillBytes(make([]byte, 32))
+		if ecc.GetPublicKeySchnorr(kb)[0] == 0 {
+			return kb
+		}
+	}
+}
+
+func init() {
+	regExtra("C06", func(r *Runner) {
+		// ECDH pairs whose shared x coordinate starts with a zero byte
+		found := 0
+		for a := int64(2); found < r.N(3, 12) && a < 60; a++ {
+			ka := big.NewInt(a * 1000003)
+			for b := int64(1); b < 3000; b++ {
+				kb := big.NewInt(b*7919 + a)
+				x, y, err := ecc.DeserializePoint(ecc.GetPublicKeyCompressed(kb.FillBytes(make([]byte, 32))))
+				if err != nil {
+					continue
+				}
+				if s := ecc.SharedSecret(ka, x, y); len(s) > 0 && (s[0] == 0 || s[len(s)-1] == 0 && len(s) != 32) {
+					r.Do("ecdh.sym", []string{hx(ka.FillBytes(make([]byte, 32))), hx(kb.FillBytes(make([]byte, 32)))}, "ecdh-leading-zero", true, "shared x coordinate with a leading zero byte")
+					r.Do("ecdh", []string{hx(ka.FillBytes(make([]byte, 32))), hx(ecc.GetPublicKeyCompressed(kb.FillBytes(make([]byte, 32))))}, "ecdh-leading-zero", true, "")
+					found++
+					break
+				}
+			}
+		}
+		// public keys whose x coordinate starts with a zero byte, in every encoding
+		for i, start := 0, int64(1); i < r.N(3, 10); i++ {
+			k := scalarWithLeadingZeroX(start)
+			start = new(big.Int).SetBytes(k).Int64() + 1
+			for _, op := range []string{"pub.c", "pub.u", "pub.x"} {
+				r.Do(op, []string{hx(k)}, "pub-leading-zero-x", true, "public key x with a leading zero byte")
+			}
+		}
+	})
+	for _, p := range []string{"C04", "C05"} {
+		regExtra(p, func(r *Runner) {
+			// Schnorr signatures under keys whose x coordinate starts with a zero byte
+			for i, start := 0, int64(1); i < r.N(3, 10); i++ {
+				k := scalarWithLeadingZeroX(start)
+				start = new(big.Int).SetBytes(k).Int64() + 1
+				m, aux := r.bytesN(32), r.bytesN(32)
+				sig := ecc.SignSchnorr(k, m, aux)
+				if p == "C04" {
+					r.Do("schnorr.sign", []string{hx(k), hx(m), hx(aux)}, "schnorr-leading-zero-key", true, "")
+				}
+				r.Do("schnorr.verify", []string{hx(ecc.GetPublicKeySchnorr(k)), hx(m), hx(sig)}, "schnorr-leading-zero-key", true, "public key x with a leading zero byte")
+			}
+		})
+	}
+	// C10: an EC-multiplied BIP38 key whose private key factorb*passfactor mod n starts with a zero byte
+	regExtra("C10", func(r *Runner) {
+		pw := "leading zero"
+		rnd := []byte{1, 2, 3, 4, 5, 6, 7, 8}
+		code, err := bip38.GenerateIntermediateCode(bytes.NewReader(rnd), pw)
+		if err != nil {
+			return
+		}
+		payload, err := base58check.Decode(code)
+		if err != nil || len(payload) < 49 {
+			return
+		}
+		// the intermediate code holds passpoint = passfactor*G; the private key is factorb*passfactor, so its
+		// leading byte cannot be predicted from the code alone: recompute passfactor the way the library derives it
+		passfactor, err := scrypt.Key([]byte(pw), rnd, 16384, 8, 8, 32)
+		if err != nil {
+			return
+		}
+		pf := new(big.Int).SetBytes(passfactor)
+		n := ekliptic.Secp256k1_CurveOrder
+		for ctr := 0; ctr < 4000; ctr++ {
+			seedb := make([]byte, 24)
+			seedb[0], seedb[1] = byte(ctr), byte(ctr>>8)
+			h1 := sha256.Sum256(seedb)
+			h2 := sha256.Sum256(h1[:])
+			key := new(big.Int).Mul(new(big.Int).SetBytes(h2[:]), pf)
+			key.Mod(key, n)
+			if key.BitLen() <= 248 && key.Sign() > 0 {
+				r.Do("bip38.ecenc", []string{hx(seedb), sx(code), "1"}, "bip38-ec-leading-zero-key", true, "EC-multiplied key with a leading zero byte")
+				if enc, err := bip38.EncryptIntermediateCode(bytes.NewReader(seedb), code, true); err == nil {
+					r.Do("bip38.dec", []string{sx(enc), sx(pw)}, "bip38-ec-leading-zero-key", true, "")
+				}
+				return
+			}
+		}
+	})
+	// C13: NewDeadKey with readers whose first 32 bytes are not a valid scalar (zero, n, n+1, all ones):
+	// the pair it returns must verify whatever the reader delivers
+	reg("dead.new", GoOnly, func(a []string) (string, []string) {
+		key, proof, err := taproot.NewDeadKey(bytes.NewReader(unhx(a[0])))
+		if err != nil {
+			return "err", nil
+		}
+		var direct []string
+		if verr := taproot.VerifyDeadKey(key, proof); verr != nil {
+			direct = append(direct, fmt.Sprintf("NewDeadKey returned a pair that VerifyDeadKey rejects: key %x proof %x", key, proof))
+		}
+		if len(proof) != 32 || !validScalarBytes(proof) {
+			direct = append(direct, fmt.Sprintf("NewDeadKey returned a proof outside [1, n-1]: %x", proof))
+		}
+		return "ok " + hx(key) + " " + hx(proof), direct
+	})
+	regExtra("C13", func(r *Runner) {
+		n := ekliptic.Secp256k1_CurveOrder
+		one := big.NewInt(1)
+		for _, first := range []*big.Int{big.NewInt(0), n, new(big.Int).Add(n, one), new(big.Int).Sub(new(big.Int).Lsh(one, 256), one), new(big.Int).Sub(n, one), one} {
+			stream := append(first.FillBytes(make([]byte, 32)), r.bytesN(96)...)
+			r.Do("dead.new", []string{hx(stream)}, "dead/new-crafted-reader", true, "reader whose first draw is an edge value")
+		}
+	})
+}
+
+// ---- C17: RPC responses with every status, mnemonic words at the edges of the word list ------------
+
+type statusTransport struct {
+	status int
+	body   []byte
+}
+
+func (f statusTransport) RoundTrip(req *http.Request) (*http.Response, error) {
+	return &http.Response{StatusCode: f.status, Status: fmt.Sprintf("%d x", f.status), Body: io.NopCloser(bytes.NewReader(f.body)), Header: http.Header{}, Request: req}, nil
+}
+
+func init() {
+	reg("c17.rpcstatus", GoOnly, func(a []string) (string, []string) {
+		st, err := strconv.Atoi(a[0])
+		if err != nil {
+			return "bad-op", nil
+		}
+		old := http.DefaultClient.Transport
+		http.DefaultClient.Transport = statusTransport{st, unhx(a[1])}
+		defer func() { http.DefaultClient.Transport = old }()
+		conn, err := rpc.NewConnection("http://127.0.0.1:1/", "u", "p")
+		if err != nil {
+			return "bad-op", nil
+		}
+		if strings.Contains(string(unhx(a[1])), "Work queue depth exceeded") {
+			return "err", nil // documented retry loop of the client, not a parser
+		}
+		if _, err := conn.Request("getblockcount"); err != nil {
+			return "err", nil
+		}
+		return "ok", nil
+	})
+	regExtra("C17", func(r *Runner) {
+		bodies := []string{`{"result":null,"error":null,"id":0}`, `{}`, `{"result":5,"error":null,"id":0}`, `{"error":{"code":-1,"message":"x"}}`,
+			`null`, `[]`, ``, `{"result":`, `<html>500</html>`, `{"error":null}`, `{"result":{"a":1}}`}
+		for _, st := range []int{200, 201, 204, 301, 400, 401, 403, 404, 500, 503} {
+			for _, b := range bodies {
+				r.DoMode("c17.rpcstatus", []string{strconv.Itoa(st), strHex(b)}, "rpc-status-and-body", true, "", GoOnly)
+			}
+		}
+		// mnemonics with unknown words that sort before the first and after the last list word, of
+		// every length 0..9, at the first, a middle and the last position of every accepted count
+		edgeWords := []string{"", " ", "a", "aa", "aaa", "aaaa", "aaaaa", "abandom", "abandon ", "zo", "zoo ", "zoom", "zooo", "zulu", "zzz", "zzzz", "zzzzz", "zzzzzzzzz",
+			"{abc", "~~~~", "\xff\xff\xff\xff", "\x00\x00\x00\x00", "ZOOM", "Zoo"}
+		for _, n := range []int{12, 15, 18, 21, 24} {
+			for wi, w := range edgeWords {
+				ws := make([]string, n)
+				for i := range ws {
+					ws[i] = bip39.WordList[(i*97+wi*13)%2048]
+				}
+				ws[[]int{0, n / 2, n - 1}[wi%3]] = w
+				if _, ok := ops["bip39.dec"]; ok {
+					r.DoMode("bip39.dec", []string{hx([]byte(strings.Join(ws, " ")))}, "mnemonic-word-at-list-edge", true, "", ops["bip39.dec"].mode)
+				}
+			}
 		}
 	})
 }
